@@ -157,7 +157,14 @@ class Engine:
             raise Unsupported("attribute %s on %s" % (field, obj.ty))
         region, fty = self.field_region(obj.ty.cls, field)
         arr = st.H(region, fty.sort)
-        return SV(arr[obj.v], fty)
+        val = arr[obj.v]
+        if fty.sort == Ref and (isinstance(fty, (ListT, SetT, DictT, GraphT)) or self.content_type(SV(val, fty)) is not None):
+            # standing assumption: a field typed as a container is never None
+            k = ("nn", val.get_id())
+            if k not in self._wf_regions:
+                self._wf_regions.add(k); self._keep = getattr(self, "_keep", []); self._keep.append(val)
+                self.axioms.append(val != NULL)
+        return SV(val, fty)
 
     def set_field(self, st, obj: SV, field, val: SV):
         region, fty = self.field_region(obj.ty.cls, field)
@@ -303,14 +310,14 @@ class Engine:
             return z3.And(t.len(sv.v) >= 1, z3.Not(z3.And(t.len(sv.v) == 1, t.arr(sv.v)[0] == EPS)))
         if isinstance(t, SeqT): return t.len(sv.v) > 0
         ct = self.content_type(sv) if t.sort == Ref else None
-        # containers are never None where a contract types them as containers (standing assumption)
+        # (fields / parameters typed as containers are assumed non-None; results of dict.get() may be None)
         if isinstance(ct, ListT):
             sq, v = self.seq_of(st, sv)
-            return sq.len(v) > 0
+            return z3.And(sv.v != NULL, sq.len(v) > 0)
         if isinstance(ct, (SetT, DictT, GraphT)):
             e, m = self.set_of(st, sv)
             x = self.fresh("m", e.sort)
-            return z3.Exists([x], m[x])
+            return z3.And(sv.v != NULL, z3.Exists([x], m[x]))
         if t.sort == Ref: return sv.v != NULL
         if t is VAL:
             tr = z3.Function("truthy", Val, B)
@@ -1203,7 +1210,10 @@ class Engine:
                 env["result"] = res
             ev = SpecEval(self, st, self.old, env, set(c.params))     # parameter names denote the values at entry
             for cl in c.ensures:
-                self.oblige(st, "ensures", cl.label, ev.bool(cl.ast), None, cl.text)
+                f = ev.bool(cl.ast)
+                self.oblige(st, "ensures", cl.label, f, None, cl.text)
+                if cl.label.startswith("LEMMA-"):
+                    st.pc.append(f)      # proved just above (own obligation); may be used for the clauses that follow
             self.exit_frame(c, st, "ensures")
             return
         raise Unsupported("break/continue outside loop")
